@@ -17,6 +17,7 @@ Section MachineProofs.
   Variable row_num : row -> N.
   Variable input : Type.
   Variable mem : Type.
+  Variable row_has_leaves : row -> bool.
   Variable apply : mem -> list row -> N -> input -> apply_result row * mem.
   Variable on_reorg : mem -> mem.
 
@@ -29,8 +30,10 @@ Section MachineProofs.
   Notation hasb := (has_block row row_num mem).
   Notation lastb := (last_block row row_num mem).
   Notation runm := (run_method row mem).
-  Notation stp := (step row row_num input mem apply on_reorg).
-  Notation rn := (run row row_num input mem apply on_reorg).
+  Notation stp := (step row row_num input mem row_has_leaves apply on_reorg).
+  Notation rn := (run row row_num input mem row_has_leaves apply on_reorg).
+  Notation rgf := (reorg_faulted row row_num mem row_has_leaves on_reorg).
+  Notation fires := (fault_fires row row_num mem row_has_leaves).
 
   (* ---- facade ---- *)
   Lemma halted_queries_fail : forall (m : fmethod) (st : st_t) (body : outcome),
@@ -198,8 +201,47 @@ Section MachineProofs.
   (* ---- whole histories: once halted, nothing changes until a reorg deletes a row ---- *)
   Definition deleted_in (rws : list row) (b : N) : N :=
     N.of_nat (List.length (filter (fun r => b <=? row_num r) rws)).
+  Definition fires_in (rws : list row) (f : rfault) (b : N) : bool :=
+    let doomed := filter (fun r => b <=? row_num r) rws in
+    match f with
+    | FCommit => negb (Nat.eqb (List.length doomed) 0)
+    | FTree => existsb row_has_leaves doomed
+    end.
   Definition harmless (rws : list row) (o : op input) : Prop :=
-    match o with OpReorg b => deleted_in rws b = 0 | _ => True end.
+    match o with
+    | OpReorg b => deleted_in rws b = 0
+    | OpReorgFault f b => fires_in rws f b = true \/ deleted_in rws b = 0
+    | _ => True
+    end.
+
+  (* ---- a Reorg whose transaction fails: error, rows and flag untouched ---- *)
+  Lemma failed_reorg_changes_nothing : forall f b (st : st_t), fires f b st = true ->
+    fst (rgf f b st) = OOther /\ halted (snd (rgf f b st)) = halted st /\ rows (snd (rgf f b st)) = rows st.
+  Proof.
+    intros f b st F. unfold reorg_faulted, reorg_faulted_with. rewrite F. simpl. auto.
+  Qed.
+
+  Lemma unfired_fault_is_plain_reorg : forall f b (st : st_t), fires f b st = false ->
+    rgf f b st = (OOk, rg b st).
+  Proof. intros f b st F. unfold reorg_faulted, reorg_faulted_with. rewrite F. reflexivity. Qed.
+
+  (* whatever the fault does: afterwards halted iff halted before and (the Reorg failed or deleted nothing) *)
+  Lemma faulted_reorg_flag : forall f b (st : st_t),
+    halted (snd (rgf f b st)) = halted st && (fires f b st || (del b st =? 0)).
+  Proof.
+    intros f b st. unfold reorg_faulted, reorg_faulted_with. destruct (fires f b st); simpl.
+    - rewrite andb_true_r. reflexivity.
+    - apply unhalt_iff_rows_deleted.
+  Qed.
+
+  (* the variant with UnhaltIfAffectedRows BEFORE the commit clears the flag although the Reorg failed and removed nothing *)
+  Lemma early_unhalt_clears_on_failed_reorg : forall f b (st : st_t), fires f b st = true -> del b st <> 0 ->
+    halted (snd (reorg_faulted_with row row_num mem row_has_leaves on_reorg true f b st)) = false /\
+    rows (snd (reorg_faulted_with row row_num mem row_has_leaves on_reorg true f b st)) = rows st.
+  Proof.
+    intros f b st F D. unfold reorg_faulted_with. rewrite F. cbn [snd halted rows andb]. rewrite eval_cmp_model.
+    destruct (N.eqb_spec (del b st) 0); [congruence|]. simpl. auto.
+  Qed.
 
   Lemma halted_history : forall ops (st : st_t), halted st = true -> Forall (harmless (rows st)) ops ->
     halted (rn ops st) = true /\ rows (rn ops st) = rows st.
@@ -207,10 +249,15 @@ Section MachineProofs.
     induction ops as [|o t IH]; intros st H F; simpl; [auto|].
     inversion F as [|o' t' Ho Ft]; subst.
     assert (E : halted (snd (stp o st)) = true /\ rows (snd (stp o st)) = rows st).
-    { destruct o as [n e|b|]; cbn [step snd].
+    { destruct o as [n e|b| |f b]; cbn [step snd].
       - rewrite (halted_is_sticky st n e H). simpl. auto.
       - rewrite (reorg_nothing_deleted b st Ho). simpl. auto.
-      - auto. }
+      - auto.
+      - destruct (fires f b st) eqn:Fi.
+        + destruct (failed_reorg_changes_nothing f b st Fi) as [_ [A B]]. rewrite A, B. auto.
+        + rewrite (unfired_fault_is_plain_reorg f b st Fi). cbn [snd].
+          destruct Ho as [Ho|Ho]; [unfold fires_in in Ho; unfold fault_fires in Fi; congruence|].
+          rewrite (reorg_nothing_deleted b st Ho). simpl. auto. }
     destruct E as [E1 E2]. destruct (IH (snd (stp o st)) E1) as [I1 I2]; [rewrite E2; exact Ft|].
     split; [exact I1|congruence].
   Qed.
@@ -352,14 +399,17 @@ Lemma b_reorg_synced : forall (st : bstate) b, b_synced (b_reorg b st).
 Proof. intros st b. left. reflexivity. Qed.
 
 (* hence every state reached from the initial one by any history of blocks / reorgs / queries *)
-Notation b_run := (run brow br_num (list bevent) bmem b_apply b_on_reorg).
+Notation b_run := (run brow br_num (list bevent) bmem b_has_leaves b_apply b_on_reorg).
 Lemma b_step_preserves_synced : forall o (st : bstate), b_synced st ->
-  b_synced (snd (step brow br_num (list bevent) bmem b_apply b_on_reorg o st)).
+  b_synced (snd (step brow br_num (list bevent) bmem b_has_leaves b_apply b_on_reorg o st)).
 Proof.
-  intros [n e|b|] st Sy; simpl.
+  intros [n e|b| |f b] st Sy; simpl.
   - apply b_process_preserves_synced. exact Sy.
   - apply b_reorg_synced.
   - exact Sy.
+  - unfold reorg_faulted, reorg_faulted_with.
+    destruct (fault_fires brow br_num bmem b_has_leaves f b st); [|apply b_reorg_synced].
+    destruct f; unfold b_synced; simpl; [exact Sy|left; reflexivity].
 Qed.
 
 Lemma b_run_preserves_synced : forall ops (st : bstate), b_synced st -> b_synced (b_run ops st).
@@ -644,6 +694,7 @@ Section ModelMeetsSpec.
   Variable row_num : row -> N.
   Variable input : Type.
   Variable mem : Type.
+  Variable row_has_leaves : row -> bool.
   Variable apply : mem -> list row -> N -> input -> apply_result row * mem.
   Variable on_reorg : mem -> mem.
   Variable incons : list (N * input) -> input -> bool.
@@ -692,7 +743,7 @@ Section ModelMeetsSpec.
     - apply N.eqb_neq. lia.
   Qed.
 
-  Notation mobs := (model_obs row row_num input mem apply on_reorg).
+  Notation mobs := (model_obs row row_num input mem row_has_leaves apply on_reorg).
   Notation sspec := (spec_steps input incons detect).
   Notation lastb := (last_block row row_num mem).
   Notation cnt := (block_count row mem).
@@ -702,7 +753,7 @@ Section ModelMeetsSpec.
       sspec touches ops acc (halted st) (lastb st) (cnt st) (mobs m ops st) = true.
   Proof.
     intros touches m TG. induction ops as [|o t IH]; intros st acc F; [reflexivity|].
-    destruct o as [n e|b|].
+    destruct o as [n e|b| |f b].
     - (* ProcessBlock *)
       cbn [model_obs spec_steps step so_out so_last so_rows].
       unfold process_block.
@@ -751,6 +802,20 @@ Section ModelMeetsSpec.
       unfold run_method. destruct (halted st) eqn:H.
       + destruct touches; [|reflexivity]. rewrite (TG eq_refl). reflexivity.
       + rewrite andb_false_r. reflexivity.
+    - (* Reorg under an armed fault *)
+      cbn [model_obs spec_steps step so_out so_last so_rows].
+      unfold reorg_faulted, reorg_faulted_with.
+      destruct (fault_fires row row_num mem row_has_leaves f b st) eqn:Fi; cbn [fst snd outcome_eqb andb].
+      + (* the transaction fails: error, nothing changes *)
+        set (st' := {| halted := halted st; rows := rows st;
+                       memory := match f with FCommit => on_reorg (memory st) | FTree => memory st end |}).
+        change (lastb st') with (lastb st). change (cnt st') with (cnt st).
+        rewrite !N.eqb_refl. cbn [andb].
+        exact (IH st' acc F).
+      + pose proof (IH (reorg row row_num mem on_reorg b st) (filter (fun x => fst x <? b) acc)) as IH'.
+        rewrite reorg_rows in IH'. specialize (IH' (F2_filter acc (rows st) b F)).
+        rewrite unhalt_iff_rows_deleted in IH'. rewrite (F2_deleted acc st b F) in IH'.
+        rewrite negb_involutive. exact IH'.
   Qed.
 End ModelMeetsSpec.
 
@@ -767,10 +832,10 @@ Qed.
 
 Lemma b_model_meets_failstop : forall touches m, (touches = true -> fm_guarded m = true) ->
   forall ops, spec_steps (list bevent) ref_b_inconsistent false touches ops [] false 0 0
-                (model_obs brow br_num (list bevent) bmem b_apply b_on_reorg m ops b_init) = true.
+                (model_obs brow br_num (list bevent) bmem b_has_leaves b_apply b_on_reorg m ops b_init) = true.
 Proof.
   intros touches m TG ops.
-  apply (model_meets_spec brow br_num (list bevent) bmem b_apply b_on_reorg ref_b_inconsistent false Pb
+  apply (model_meets_spec brow br_num (list bevent) bmem b_has_leaves b_apply b_on_reorg ref_b_inconsistent false Pb
            (fun x r H => H) b_apply_ok (fun D => False_ind _ (Bool.diff_false_true D)) touches m TG ops b_init []).
   constructor.
 Qed.
@@ -786,7 +851,7 @@ Fixpoint binv (acc : list (N * list bevent)) (rws : list brow) : Prop :=
   | _, _ => False
   end.
 
-Notation b_step := (step brow br_num (list bevent) bmem b_apply b_on_reorg).
+Notation b_step := (step brow br_num (list bevent) bmem b_has_leaves b_apply b_on_reorg).
 
 Fixpoint b_increasing (ops : list (op (list bevent))) (st : bstate) : Prop :=
   match ops with
@@ -835,12 +900,12 @@ Lemma b_model_meets_spec_increasing : forall touches m, (touches = true -> fm_gu
   forall ops (st : bstate) acc, binv acc (rows st) -> b_synced st -> b_increasing ops st ->
     spec_steps (list bevent) ref_b_inconsistent true touches ops acc (halted st)
       (last_block brow br_num bmem st) (block_count brow bmem st)
-      (model_obs brow br_num (list bevent) bmem b_apply b_on_reorg m ops st) = true.
+      (model_obs brow br_num (list bevent) bmem b_has_leaves b_apply b_on_reorg m ops st) = true.
 Proof.
   intros touches m TG. induction ops as [|o t IH]; intros st acc Iv Sy Inc; [reflexivity|].
   destruct Inc as [Io Inc].
   pose proof (binv_F2 acc (rows st) Iv) as F.
-  destruct o as [n e|b|].
+  destruct o as [n e|b| |f b].
   - (* ProcessBlock *)
     cbn [model_obs spec_steps step so_out so_last so_rows].
     pose proof (b_process_preserves_synced st n e Sy) as Sy'.
@@ -899,12 +964,30 @@ Proof.
     unfold run_method. destruct (halted st) eqn:H.
     + destruct touches; [|reflexivity]. rewrite (TG eq_refl). reflexivity.
     + rewrite andb_false_r. reflexivity.
+  - (* Reorg under an armed fault *)
+    cbn [model_obs spec_steps step so_out so_last so_rows].
+    pose proof (b_step_preserves_synced (OpReorgFault f b) st Sy) as Sy'.
+    cbn [step] in Inc, Sy'. revert Inc Sy'.
+    unfold reorg_faulted, reorg_faulted_with.
+    destruct (fault_fires brow br_num bmem b_has_leaves f b st) eqn:Fi; cbn [fst snd outcome_eqb andb]; intros Inc Sy'.
+    + set (st' := {| halted := halted st; rows := rows st;
+                     memory := match f with FCommit => b_on_reorg (memory st) | FTree => memory st end |}) in *.
+      change (last_block brow br_num bmem st') with (last_block brow br_num bmem st).
+      change (block_count brow bmem st') with (block_count brow bmem st).
+      rewrite !N.eqb_refl. cbn [andb].
+      exact (IH st' acc Iv Sy' Inc).
+    + pose proof (IH (b_reorg b st) (filter (fun x => fst x <? b) acc)) as IH'.
+      unfold b_reorg in IH'. rewrite reorg_rows in IH'.
+      specialize (IH' (binv_filter b acc (rows st) Iv) (b_reorg_synced st b) Inc).
+      rewrite unhalt_iff_rows_deleted in IH'.
+      rewrite (F2_deleted brow br_num (list bevent) bmem Pb (fun x r H => H) acc st b F) in IH'.
+      rewrite negb_involutive. exact IH'.
 Qed.
 
 Lemma b_model_meets_spec : forall touches m, (touches = true -> fm_guarded m = true) ->
   forall ops, b_increasing ops b_init ->
     spec_steps (list bevent) ref_b_inconsistent true touches ops [] false 0 0
-      (model_obs brow br_num (list bevent) bmem b_apply b_on_reorg m ops b_init) = true.
+      (model_obs brow br_num (list bevent) bmem b_has_leaves b_apply b_on_reorg m ops b_init) = true.
 Proof.
   intros touches m TG ops Inc.
   apply (b_model_meets_spec_increasing touches m TG ops b_init [] I b_synced_init Inc).
@@ -952,10 +1035,10 @@ Qed.
 
 Lemma l_model_meets_spec : forall touches m, (touches = true -> fm_guarded m = true) ->
   forall ops, spec_steps (list levent) ref_l_inconsistent true touches ops [] false 0 0
-                (model_obs lrow lr_num (list levent) unit l_apply l_on_reorg m ops l_init) = true.
+                (model_obs lrow lr_num (list levent) unit l_has_leaves l_apply l_on_reorg m ops l_init) = true.
 Proof.
   intros touches m TG ops.
-  apply (model_meets_spec lrow lr_num (list levent) unit l_apply l_on_reorg ref_l_inconsistent true Pl
+  apply (model_meets_spec lrow lr_num (list levent) unit l_has_leaves l_apply l_on_reorg ref_l_inconsistent true Pl
            (fun x r H => proj1 H) l_apply_ok l_apply_halt touches m TG ops l_init []).
   constructor.
 Qed.
